@@ -62,6 +62,15 @@ func (e *Engine) oracles(i int, fail failFn, method, path string, browser bool, 
 			e.lastPop = ""
 		}
 	}()
+	// ---- C07: no request makes a handler panic (the request would get no answer; when the
+	// state it left is what panics, no later request on that route is answered either)
+	if r.status == -1 || after == "PANIC" {
+		what := "the handler of " + method + " " + routeShape(path) + " panicked: " + r.errMsg
+		if r.status != -1 {
+			what = "after " + method + " " + routeShape(path) + " (answered " + fmt.Sprint(r.status) + ") GET /proxies panics: the API no longer answers"
+		}
+		return fail(i, "oracle", "C07", "an answer", "panic", what, "e4:C07:handler-panic")
+	}
 	// ---- C06: a rejected request changes nothing (bind/resolve failures excepted)
 	if e.wants("C06") && r.status >= 400 && !(r.status == 500 && netFailure(r.errMsg)) && after != snap {
 		return fail(i, "oracle", "C06", "", fmt.Sprintf("%d %s", r.status, r.errMsg),
@@ -92,6 +101,36 @@ func (e *Engine) oracles(i int, fail failFn, method, path string, browser bool, 
 			if (ent == "") != (r.status == 404) || (ent != "" && (r.status != 200 || r.canon != ent)) {
 				return fail(i, "oracle", "C05", ent, fmt.Sprintf("%d %s", r.status, r.canon),
 					"GET /proxies/{name} does not reflect the registry", "e4:C05:read-your-writes")
+			}
+		}
+		// every read reflects the successful writes: an update of a proxy that was answered 200
+		// and spelled out an upstream shows exactly that upstream afterwards (a listen address may
+		// legitimately read back in another spelling: the bound address, or the old spelling
+		// when the new one denotes the same address)
+		if !browser && (method == "POST" || method == "PATCH") && len(segs) == 2 && segs[0] == "proxies" && r.status == 200 {
+			if jv, ok := ParseJV(body); ok && jv.Kind == "obj" {
+				seen := map[string]int{}
+				val := map[string]string{}
+				clean := true
+				for _, kv := range jv.Obj {
+					k := strings.ToLower(kv.K)
+					if k != kv.K {
+						clean = false // (case-folded keys: which one wins is the decoder's business)
+					}
+					seen[k]++
+					if kv.V.Kind == "str" {
+						val[k] = kv.V.S
+					} else if k == "upstream" || k == "listen" || k == "enabled" || k == "name" {
+						clean = clean && kv.V.Kind == "bool" && k == "enabled"
+					}
+				}
+				ent := strings.SplitN(strings.TrimSuffix(strings.TrimPrefix(ProxyEntry(after, segs[1]), "P("), ")"), "|", 5)
+				if clean && len(ent) == 5 {
+					if seen["upstream"] == 1 && val["upstream"] != "" && ent[2] != val["upstream"] {
+						return fail(i, "oracle", "C05", "upstream "+val["upstream"], "upstream "+ent[2],
+							"an update answered 200 that names an upstream is not reflected by the following read", "e4:C05:update-not-reflected")
+					}
+				}
 			}
 		}
 		// unknown proxy: 404 on every sub-route
